@@ -14,8 +14,14 @@ cp $SRC/demo_test.go $A/$DEMOPKG/zz_seeded_demo_test.go; cp $SRC/demo_test.go $B
 (cd $A/utils && go test -count=1 -run '^TestSeededDemo$' ./${DEMOPKG#utils/}/ > /tmp/seed_without.log 2>&1); RW=$?
 (cd $B/utils && go test -count=1 -run '^TestSeededDemo$' ./${DEMOPKG#utils/}/ > /tmp/seed_with.log 2>&1); RC=$?
 rm $A/$DEMOPKG/zz_seeded_demo_test.go $B/$DEMOPKG/zz_seeded_demo_test.go
-(cd $A/utils && go test -count=1 $PKGS 2>&1 | grep -- "^--- FAIL\|^    --- FAIL\|^FAIL\|^ok" | sed 's/ ([0-9.]*s)//; s/\t[0-9.]*s$//' | sort > /tmp/seed_base_tests.log)
-(cd $B/utils && go test -count=1 $PKGS 2>&1 | grep -- "^--- FAIL\|^    --- FAIL\|^FAIL\|^ok" | sed 's/ ([0-9.]*s)//; s/\t[0-9.]*s$//' | sort > /tmp/seed_mut_tests.log)
+# timing-dependent tests that fail now and then on the untouched tree are left out of the comparison
+FLAKY='TestLockConcurrentSafeguard\|TestLockSequential\|TestLockStale\|TestClientHappy\|TestClientWithDifferentBodies'
+BASEKEY=/tmp/seedbase-$(echo "$PKGS" | md5sum | cut -c1-12)-$(git -C /repo rev-parse --short HEAD).log
+if [ ! -s $BASEKEY ]; then
+(cd $A/utils && go test -count=1 $PKGS 2>&1 | grep -- "^--- FAIL\|^    --- FAIL\|^FAIL\|^ok" | grep -v "$FLAKY" | sed 's/ ([0-9.]*s)//; s/\t[0-9.]*s$//' | sort > $BASEKEY)
+fi
+cp $BASEKEY /tmp/seed_base_tests.log
+(cd $B/utils && go test -count=1 $PKGS 2>&1 | grep -- "^--- FAIL\|^    --- FAIL\|^FAIL\|^ok" | grep -v "$FLAKY" | sed 's/ ([0-9.]*s)//; s/\t[0-9.]*s$//' | sort > /tmp/seed_mut_tests.log)
 if diff -q /tmp/seed_base_tests.log /tmp/seed_mut_tests.log >/dev/null; then SAME=true; else SAME=false; fi
 GOVC_REPO=$B /verif/bin/govc -prop $PROP -noreplay > /verif/seeded/$ID/check.log 2>&1; CK=$?
 rm -rf $A $B
